@@ -8,7 +8,7 @@ _base_harnesses = harnesses
 def harnesses(tier):
     return _base_harnesses(tier) + [('vhm', ('XV_RECL=GC',), False, '_gc')]
 HARNESSES = harnesses('quick')
-PROPERTY_FILES = ['Properties_C10_vhm', 'Properties_C10']
+PROPERTY_FILES = ['Properties_C10_vhm', 'Properties_C10_vhmgrow', 'Properties_C10']
 THEOREM_NOTES = {
     'scope': 'the theorems are about a step-level model of ONE bucket of vyukov_hash_map<long, long> (constant hash, no grow): 3 array slots + extension items with their free list and lock, bucket.state = the word GENERATED from the source (lock bit, version, item count, delete marker), emplace / get_or_emplace / erase / extract / lock-free try_get_value, for any number of threads, programs and schedules: lock discipline, structure when unlocked (abstract map = array pairs + chain pairs, keys distinct), chain and free list disjoint, the version rule (every step bumps the version or preserves what a reader may be standing on), writers linearize at the store that makes the change visible with the sequential result, and the main theorem: every completed try_get_value(k) has an instant inside the call at which the abstract map agreed with its answer (never absent for a key present throughout, never a value of another key). Hypothesis of the reader theorems: fewer than 2^27 version bumps (the 27-bit version field can wrap). Tied to the code by trace correspondence (mode ll, GC reclaimer, extension-bucket offset probed per run). Multi-bucket maps, grow, non-trivial key/value storage modes and the real reclaimers are covered by the search only',
 }
@@ -32,6 +32,10 @@ def run(ctx):
     cases = list(VHM_FIXED) + [vhm_model_program(rng, iterators=False) for _ in range(8 if thorough else 4)]
     st = vhm_correspondence(ctx, 'vhm', Hgc, cases, 8 if thorough else 5, 'vyukov_hash_map bucket')
     tie = tie_broken_sig(st, 'vhm')
+    # ---- tie: the multi-bucket model with grow (Model/VhmGrowDefs.v; capacities 1/2/4, no extension buckets, any number of grows)
+    gcases = list(VHMGROW_FIXED) + [vhmgrow_model_program(rng) for _ in range(8 if thorough else 4)]
+    stg = do_correspondence(ctx, 'vhmgrow', Hgc, gcases, 8 if thorough else 5, 'vyukov_hash_map grow')
+    tie = tie or tie_broken_sig(stg, 'vhmgrow')
     n = 1500 if thorough else 200
     for name, H in sorted(Hs.items()):
         jobs = []
